@@ -148,6 +148,22 @@ class ContractMixin:
         post.store["result"] = result
         post.old = pre_snapshot
         post.pc = st.pc
+        post.ghost = dict(post.ghost)
+        post.ghost.pop("final_store", None)
+        ltypes = {}
+        for nm, ts in fs.types.items():
+            if not nm.startswith("__") and isinstance(ts, str):
+                try:
+                    ltypes[nm] = self.parse_type_str(ts, mod)
+                except EngineError:
+                    pass
+        if fnode is not None:
+            for nm, ann in self.local_annotations(Frame(mod, fs.qualname, fnode, fs)).items():
+                if nm not in ltypes:
+                    t = loader.parse_type(ann, mod, self.pseudo_classes())
+                    if t is not None:
+                        ltypes[nm] = t
+        post.ghost["callee_locals"] = {"types": ltypes, "vals": {}}
         for clause in fs.ensures:
             c = self.spec_assume(clause, post)
             st.assume(c)
